@@ -337,7 +337,17 @@ def mon_c11(ex, info, col):
                             continue  # (a part may be carried along with its assembly later in the same allocation: where it is at the end of the step says nothing about its own turn)
                         wpn = sa["components"][cn][1]
                         if wpn is None:
-                            continue  # (a single-task component is placed at its own task's turn, before facilities are searched)
+                            # (a single-task component is carried in at its own task's turn, before machines are searched: still nowhere although an assigned
+                            #  workplace has room and a FREE machine this worker can operate means the higher-priority task was passed over)
+                            if hw or hf:
+                                continue
+                            got_ = M.carry_in_pair(ex, info, sa, cn, high, w, t)
+                            if got_ is None:
+                                continue
+                            out.append(M.V("C11", "C11:allocation-inverted-priority:%s" % rule, ex,
+                                           {"t": t, "worker": w, "given_to": low, "key_low": keys[low], "higher_priority_task": high, "key_high": keys[high], "workers_of_high": hw,
+                                            "free_facility_for_high": got_[1], "component_could_be_carried_into": got_[0]}))
+                            continue
                         for f in info.wp_facilities.get(wpn, []):
                             fst, fa = sa["facilities"][f]
                             if fst != S.R_FREE or fa or M.res_absent(ex, info, f, t):
